@@ -50,7 +50,7 @@ fn canary() -> Vec<Outcome> {
 
 static CANARY: std::sync::Mutex<Option<Vec<Outcome>>> = std::sync::Mutex::new(None);
 
-fn canary_check(r: &mut OneResult) {
+pub fn canary_check(r: &mut OneResult) {
     let now = canary();
     r.add("canary_evaluations", 1);
     let mut g = CANARY.lock().unwrap();
